@@ -226,8 +226,11 @@ class LogRoundTrip(NativeCase):
         rnd = random.Random(0)
         optsets = [(), ('-size',), ('-storage',), ('-push0',)] if tier == 'quick' else [(), ('-size',), ('-storage',), ('-length',), ('-partition',), ('-no-simplification',), ('-push0',)]
         n_t = 0
-        for di, (ib, rb) in enumerate(DOCS):
-            doc = docs.dumps(docs.document([corpus.tokens(b) for b in ib], [corpus.tokens(b) for b in rb]))
+        # the last document has two contracts with the same short name and different code (finding F46)
+        hom = {".code": docs.code_of_blocks([corpus.tokens("CALLVALUE PUSH 0 MSTORE PUSH 1 PUSH 2 ADD POP")]),
+               ".data": {"0": {".auxdata": "a2", ".code": docs.code_of_blocks([corpus.tokens("PUSH 3 PUSH 4 ADD PUSH 0 SSTORE")])}}}
+        for di, (ib, rb) in enumerate(DOCS + DOCS[:1]):
+            doc = docs.dumps(docs.document([corpus.tokens(b) for b in ib], [corpus.tokens(b) for b in rb], homonym=hom if di == len(DOCS) else None))
             for opts in optsets:
                 inp = dict(doc=di, opts=list(opts))
                 r1 = pipeline.run_cli(doc, ['-log'] + list(opts), fmt=None)
